@@ -49,6 +49,8 @@ func verifSharedConfig(withInfo bool) *nfpm.Config {
 		{Source: f3, Destination: "/usr/share/doc/tool/README.deb", Packager: "deb"},
 		c1,
 		{Source: f2, Destination: "/etc/tool.conf", Type: files.TypeConfig, FileInfo: &files.ContentFileInfo{Owner: "own"}},
+		{Source: f2, Destination: "/etc/tool.keep", Type: files.TypeConfigNoReplace},
+		{Source: f2, Destination: "/etc/tool.opt", Type: files.TypeConfigMissingOK},
 		{Destination: "/var/lib/tool", Type: files.TypeDir, FileInfo: &files.ContentFileInfo{}},
 		{Destination: "/var/run/tool.pid", Type: files.TypeRPMGhost},
 		// a directory whose file_info is spelled out completely (nothing left to default)
